@@ -11,7 +11,8 @@ def run(ctx):
         cs.append(dict(seed=ctx.seed + 2000 + i, slots=[1, 4, 16, 64][i % 4], events=2, prims=[2, 4][i % 2],
                        emax=[3, 30, 300, 3000][i % 4], dets=0, fluct=i % 2, scale=[0.3, 1, 5, 20, 50][i % 5],
                        order="none", inflight=0, maxsteps=60000,
-                       secfactor=[3, 3, 0.6, 0.3][i % 4], diag=0))
+                       secfactor=[3, 3, 0.6, 0.3][i % 4], diag=0, msc=[0, 1][(i // 3) % 2],
+                       field=[0, 0, 1][i % 3]))
     tot, outs = coreloop.validate(ctx, cs, ["C01."], nshards=8)
     ctx.coverage.update({"states": st, "transitions": tr, "traces_validated_against_impl": tot["runs"],
                          "samples": coreloop.sample_records(outs, kinds=("Post",)), "evaluations": tot["steps"],
@@ -22,5 +23,5 @@ def run(ctx):
                                  "EventsDone",
                          "impl_stats": tot})
     ctx.assumptions += ["energies reach TLC as fixed-point quanta (2^-28 of the total primary energy of the run): leaks below ~4e-9 of that are not seen",
-                        "hand-built synthetic tables (seed-scaled); mean and fluctuating loss; no MSC, no field in this harness",
+                        "hand-built synthetic tables (seed-scaled); mean and fluctuating loss; linear and uniform-field propagation; with and without Urban MSC (synthetic transport cross section)",
                         "deposits are read from the per-slot step state by an independent observer action and, in C17, compared with what callbacks receive"]
